@@ -6,6 +6,7 @@ struct v_function { _Bool engaged; int target; };
 static inline void v_function_init(struct v_function *f) { f->engaged = 0; f->target = 0; }
 static inline struct v_function *v_function_reset(struct v_function *f) { f->engaged = 0; f->target = 0; return f; }
 static inline struct v_function *v_function_assign(struct v_function *f, const struct v_function *o) { f->engaged = o->engaged; f->target = o->target; return f; }
+static inline struct v_function *v_function_set_closure(struct v_function *f) { int t; f->engaged = 1; f->target = t; return f; }
 static inline _Bool v_function_engaged(const struct v_function *f) { return f->engaged; }
 static inline void v_function_swap(struct v_function *a, struct v_function *b) { struct v_function t = *a; *a = *b; *b = t; }
 #endif
